@@ -38,6 +38,8 @@ package format
 //@   ensures#progress err == nil ==> len(r.r.$rem) < len(old(r.r.$rem)) && issuffix(r.r.$rem, old(r.r.$rem))          [C07 C14 C16]
 //@   ensures#argsnonnil err == nil ==> !isnil(s.Args)                                                              [C16]
 //@   ensures#suffix issuffix(r.r.$rem, old(r.r.$rem))
+//@   ensures#wrapopen lasterr("ReadBytes",1) != nil ==> err != nil && wraps(err, lasterr("ReadBytes",1))        [C13 C14]
+//@   ensures#wrapbody lasterr("ReadBytes",2) != nil ==> err != nil && wraps(err, lasterr("ReadBytes",2))        [C13 C14]
 //@   fresh s when err == nil
 //@   modifies r.err, r.r.$rem, r.r.$bufd, r.r.$under.$rem
 
@@ -45,12 +47,17 @@ package format
 //@   requires input != nil
 //@   loop 1 invariant h != nil && rr != nil && sr != nil && sr.r == rr && sr.err == nil && (forall j in 0..len(h.Recipients) :: h.Recipients[j] != nil) && issuffix(rr.$rem, old(input.$rem))
 //@   loop 1 invariant#count len(h.Recipients) == calls("ReadStanza",1) - old(calls("ReadStanza",1))          [C01 C03 C07]
+//@   loop 1 invariant#noerr lasterr("ReadStanza",1) == nil && lasterr("Peek",1) == nil && lasterr("ReadBytes",1) == nil
 //@   loop 1 decreases len(rr.$rem)
 //@   ensures#intro err == nil ==> sub(old(input.$rem), 0, 22) == "age-encryption.org/v1\n"                   [C03 C05 C07]
 //@   ensures#count err == nil ==> len(h.Recipients) == calls("ReadStanza",1) - old(calls("ReadStanza",1))    [C01 C03 C07]
 //@   ensures#footerlf err == nil ==> len(lastret("ReadBytes",1,0)) >= 1 && lastret("ReadBytes",1,0)[len(lastret("ReadBytes",1,0)) - 1] == 10   [C03 C07]
 //@   ensures#footer err == nil ==> lastret("splitArgs",1,0) == "---" && len(lastret("splitArgs",1,1)) == 1        [C03 C05 C07]
 //@   ensures#reject err != nil ==> h == nil && payload == nil                       [C07 C14]
+//@   ensures#wrapintro lasterr("ReadString",1) != nil ==> err != nil && wraps(err, lasterr("ReadString",1))      [C13 C14]
+//@   ensures#wrappeek lasterr("Peek",1) != nil ==> err != nil && wraps(err, lasterr("Peek",1))                   [C13 C14]
+//@   ensures#wrapfooter lasterr("ReadBytes",1) != nil ==> err != nil && wraps(err, lasterr("ReadBytes",1))       [C13 C14]
+//@   ensures#wrapstanza lasterr("ReadStanza",1) != nil ==> err != nil && wraps(err, lasterr("ReadStanza",1))     [C13 C14]
 //@   ensures#ok err == nil ==> h != nil && payload != nil && len(h.MAC) == 32       [C07]
 //@   ensures#stanzas err == nil ==> (forall j in 0..len(h.Recipients) :: h.Recipients[j] != nil)
 //@   ensures#payload err == nil ==> issuffix(payload.$rem, old(input.$rem))           [C07 C12]
